@@ -47,13 +47,16 @@ def _walk_replace(o, prefixes, exact_fields):
                 adt = x.get("adt")
                 if adt in exact_fields and isinstance(x.get("fields"), list):
                     m = exact_fields[adt]
-                    x["fields"] = [m.get(f, f) for f in x["fields"]]
-                # field projection
+                    x["fields"] = [(m[f][0] if f in m else f) for f in x["fields"]]
+                # field projection: the renamed field is recognised by name, position and type together
                 if "f" in x and "n" in x and isinstance(x["n"], str):
                     for m in exact_fields.values():
-                        if x["n"] in m:
-                            x["n"] = m[x["n"]]
-                            break
+                        hit = m.get(x["n"])
+                        if hit is not None and isinstance(hit, tuple):
+                            old_name, idx, ty = hit
+                            if x.get("f") == idx and (ty is None or x.get("ty") == ty):
+                                x["n"] = old_name
+                                break
             for k, v in x.items():
                 if isinstance(v, str):
                     if prefixes:
@@ -128,17 +131,17 @@ def plan(crate_j):
                 continue    # same names (possibly reordered)
             m = {}
             ok = True
-            for (wn, wt), h in zip(want, have):
+            for idx, ((wn, wt), h) in enumerate(zip(want, have)):
                 if h["name"] == wn:
                     continue
-                if h["name"] in wnames or wn in hnames or len(all_field_names.get(h["name"], ())) != 1:
+                if h["name"] in wnames or wn in hnames or h.get("ty") != wt:
                     ok = False
                     break
-                m[h["name"]] = wn
+                m[h["name"]] = (wn, idx, h.get("ty"))
             if ok and m:
                 exact_fields[a["key"]] = m
                 exact_fields[a.get("name", a["key"])] = m
-                report.append("struct %s: fields %s are the pinned %s (same position)" % (a["key"], sorted(m), sorted(m.values())))
+                report.append("struct %s: fields %s are the pinned %s (same position and type)" % (a["key"], sorted(m), sorted(v[0] for v in m.values())))
     # #[instrument] toggles on async fns
     pinned_instr = set(sp.get("instrumented", []))
     pinned_async = set(sp.get("async_fns", []))
@@ -191,5 +194,11 @@ def canonicalise_all(crates):
         _walk_replace(j, pass_a, fields)
         if pass_b:
             _walk_replace(j, pass_b, None)
+        for a in j.get("adts", []):
+            m = fields.get(a.get("key"))
+            if m and a.get("variants"):
+                for f in a["variants"][0].get("fields", []):
+                    if f["name"] in m:
+                        f["name"] = m[f["name"]][0]
         j["canonicalised"] = report
     return report
